@@ -18,8 +18,13 @@ impl Default for RenderOpts {
     }
 }
 
-pub fn param_names(n: usize) -> Vec<String> {
-    (0..n).map(|i| format!("T{i}")).collect()
+pub fn param_names(p: &Program) -> Vec<String> {
+    let n = p.contract.generics.len();
+    if p.contract.generic_names.len() == n {
+        p.contract.generic_names.clone()
+    } else {
+        (0..n).map(|i| format!("T{i}")).collect()
+    }
 }
 pub fn assoc_self_names(n: usize) -> Vec<String> {
     (0..n).map(|i| format!("Self::A{i}")).collect()
@@ -172,7 +177,7 @@ pub fn generics_decl(p: &Program) -> (String, String, String) {
     if n == 0 {
         return (String::new(), String::new(), String::new());
     }
-    let names = param_names(n);
+    let names = param_names(p);
     let list = names.join(", ");
     let preds: Vec<String> = names
         .iter()
@@ -181,7 +186,7 @@ pub fn generics_decl(p: &Program) -> (String, String, String) {
             let mut b = format!("{t}: Gen");
             for (x, j) in &p.contract.rel_bounds {
                 if *x == i {
-                    b.push_str(&format!(" + Rel<T{j}>"));
+                    b.push_str(&format!(" + Rel<{}>", names[*j]));
                 }
             }
             b
@@ -295,7 +300,7 @@ pub fn contract_attr_lines(p: &Program) -> Vec<String> {
 /// The methods of the contract impl (text of each method, in model order).
 pub fn contract_method_texts(p: &Program) -> Vec<String> {
     let (c, q) = (c_ty(p), q_ty(p));
-    let params = param_names(p.contract.generics.len());
+    let params = param_names(p);
     let mut out = vec![];
     for m in &p.contract.methods {
         let Role::Handler(kind) = m.role else { continue };
@@ -393,7 +398,7 @@ pub fn render_source(p: &Program, o: &RenderOpts) -> String {
     let mut s = String::new();
     let err = err_ty(p);
     let (ig, ta, wh) = generics_decl(p);
-    let params = param_names(p.contract.generics.len());
+    let params = param_names(p);
 
     for i in &p.interfaces {
         writeln!(s, "pub mod {} {{", i.module).unwrap();
